@@ -69,6 +69,44 @@ func (s *spec) ipLayer(next layers.IPProtocol) (gopacket.SerializableLayer, gopa
 
 // build serializes the packet; returns the bytes and the offset of the checksummed layer.
 func (s *spec) build() ([]byte, int, error) {
+	ls, off, err := s.mk()
+	if err != nil {
+		return nil, 0, err
+	}
+	b, err := serialize(ls)
+	return b, off, err
+}
+
+func serialize(ls []gopacket.SerializableLayer) ([]byte, error) {
+	buf := gopacket.NewSerializeBuffer()
+	if err := gopacket.SerializeLayers(buf, serOpts, ls...); err != nil {
+		return nil, err
+	}
+	return append([]byte(nil), buf.Bytes()...), nil
+}
+
+// setChecksums leaves v4 in the Checksum field of the outer IPv4 layer and v in the one of the layer above it
+// (what a caller who reuses layer objects, or who filled the struct from elsewhere, hands to SerializeTo).
+func setChecksums(ls []gopacket.SerializableLayer, v4, v uint16) {
+	if ip, ok := ls[0].(*layers.IPv4); ok {
+		ip.Checksum = v4
+	}
+	switch x := ls[1].(type) {
+	case *layers.TCP:
+		x.Checksum = v
+	case *layers.UDP:
+		x.Checksum = v
+	case *layers.ICMPv4:
+		x.Checksum = v
+	case *layers.ICMPv6:
+		x.Checksum = v
+	case *layers.GRE:
+		x.Checksum = v
+	}
+}
+
+// mk builds fresh layer objects for the spec; returns them and the offset of the checksummed layer.
+func (s *spec) mk() ([]gopacket.SerializableLayer, int, error) {
 	var ls []gopacket.SerializableLayer
 	off := 40
 	if s.v == 4 {
@@ -128,12 +166,7 @@ func (s *spec) build() ([]byte, int, error) {
 	default:
 		return nil, 0, fmt.Errorf("unknown proto %s", s.proto)
 	}
-	buf := gopacket.NewSerializeBuffer()
-	if err := gopacket.SerializeLayers(buf, serOpts, ls...); err != nil {
-		return nil, 0, err
-	}
-	out := append([]byte(nil), buf.Bytes()...)
-	return out, off, nil
+	return ls, off, nil
 }
 
 // ---- input steering only (never used to judge) -------------------------------------------------
@@ -442,12 +475,17 @@ func flippable(s *spec, b []byte, off int) map[string][]int {
 
 // scenario: serialize, verify unchanged, then verify flipped copies.  nflips < 0: every bit of every flippable byte.
 func (h *harness) scenario(s *spec, nflips int, allCk bool) bool {
-	b, off, err := s.build()
+	ls, off, err := s.mk()
+	if err != nil {
+		vh.Fatal("serialize failed:", err, s.proto, s.v)
+	}
+	b, err := serialize(ls)
 	if err != nil {
 		vh.Fatal("serialize failed:", err, s.proto, s.v)
 	}
 	h.emitSer(s, b, off)
 	h.emitVerify(s, b, off, nil, true)
+	defer h.variants(s, ls, b, off)
 	if nflips == 0 {
 		return true
 	}
@@ -502,6 +540,75 @@ func (h *harness) scenario(s *spec, nflips int, allCk bool) bool {
 		h.flipClass[p.c]++
 	}
 	return true
+}
+
+// emitSerV records a serialization that did not start from fresh structs; over IPv4 the same bytes are also
+// judged as a serialization of the IPv4 header.
+func (h *harness) emitSerV(s *spec, b []byte, off int, variant string) {
+	h.tr.Emit(vh.M{"op": "ser", "proto": s.proto, "v": s.v, "off": off, "bytes": vh.Ints(b), "variant": variant})
+	h.nservar[variant[:1]]++
+	if s.v == 4 && s.proto != "ip4" {
+		h.tr.Emit(vh.M{"op": "ser", "proto": "ip4", "v": 4, "off": 0, "bytes": vh.Ints(b), "variant": variant})
+		h.nservar[variant[:1]]++
+	}
+	progress.Add(1)
+}
+
+// variants: the written checksum must not depend on what the Checksum field of the layer struct held before:
+//
+//	again     the same layer objects serialized a second time into a new buffer
+//	decoded   the layers obtained by decoding the produced packet, re-serialized
+//	garbage:x fresh structs whose Checksum fields were pre-set (ffff, 1234, correct+1)
+func (h *harness) variants(s *spec, ls []gopacket.SerializableLayer, b []byte, off int) {
+	if !h.doVariants {
+		return
+	}
+	b2, err := serialize(ls)
+	if err != nil {
+		vh.Fatal("second serialization failed:", err, s.proto, s.v)
+	}
+	h.emitSerV(s, b2, off, "again")
+
+	pk := decode(b, s.v)
+	dl := pk.Layers()
+	if len(dl) < 2 {
+		vh.Fatal("decoding the produced packet gave fewer than two layers", s.proto, s.v)
+	}
+	l0, ok0 := dl[0].(gopacket.SerializableLayer)
+	l1, ok1 := dl[1].(gopacket.SerializableLayer)
+	if !ok0 || !ok1 {
+		vh.Fatal("decoded layers are not serializable", s.proto, s.v)
+	}
+	b3, err := serialize([]gopacket.SerializableLayer{l0, l1, gopacket.Payload(dl[1].LayerPayload())})
+	if err != nil {
+		vh.Fatal("serializing the decoded layers failed:", err, s.proto, s.v)
+	}
+	h.emitSerV(s, b3, off, "decoded")
+
+	var cur, cur4 uint16 // what the fresh serialization wrote
+	if hasField(s.proto, b, off) {
+		cur = binary.BigEndian.Uint16(b[fieldOff(s.proto, off):])
+	}
+	if s.v == 4 {
+		cur4 = binary.BigEndian.Uint16(b[10:])
+	}
+	h.nvar++
+	for gi, g := range [][3]interface{}{{"garbage:ffff", uint16(0xffff), uint16(0xffff)}, {"garbage:1234", uint16(0x1234), uint16(0x1234)},
+		{"garbage:correct+1", cur + 1, cur4 + 1}} {
+		if h.nvar%4 != 0 && gi != h.nvar%3 { // all three on every fourth packet, one in rotation otherwise
+			continue
+		}
+		gl, _, err := s.mk()
+		if err != nil {
+			vh.Fatal("serialize failed:", err, s.proto, s.v)
+		}
+		setChecksums(gl, g[2].(uint16), g[1].(uint16))
+		b4, err := serialize(gl)
+		if err != nil {
+			vh.Fatal("serialize failed:", err, s.proto, s.v)
+		}
+		h.emitSerV(s, b4, off, g[0].(string))
+	}
 }
 
 func (h *harness) addr(v int) net.IP {
@@ -622,7 +729,8 @@ func main() {
 	flag.Parse()
 	tr := vh.NewTrace(*out)
 	go watchdog(tr)
-	h := &harness{tr: tr, r: vh.NewRand(*seed), outcomes: map[string]map[uint16]bool{}, flipClass: map[string]int{}}
+	h := &harness{tr: tr, r: vh.NewRand(*seed), outcomes: map[string]map[uint16]bool{}, flipClass: map[string]int{},
+		nservar: map[string]int{}, doVariants: true}
 	r := h.r
 
 	// ---- FoldChecksum
@@ -802,6 +910,7 @@ func main() {
 				if t%2048 == 5 {
 					n = *flips
 				}
+				h.doVariants = t%16 == 0
 				h.scenario(s, n, false)
 			}
 		}
@@ -819,6 +928,7 @@ func main() {
 		}
 	}
 	st := vh.M{"events": tr.N, "fold": nfoldEv, "sum": nsumEv, "ser": h.nser, "verify": h.nverify, "pverify": h.npverify,
+		"ser_again": h.nservar["a"], "ser_decoded": h.nservar["d"], "ser_garbage": h.nservar["g"],
 		"flips": h.nflip, "flip_classes": h.flipClass, "distinct_stored_values": dist, "combos_with_stored_0000": zero,
 		"combos_with_stored_ffff": ones}
 	js, _ := json.Marshal(st)
